@@ -240,10 +240,7 @@ def check_values(ctx: Ctx, inp) -> None:
         values = list(coverage.cover_schema_iter(coverage.CoverageContext(location=loc, generation_modes=modes), js))
     except Exception as exc:  # noqa: BLE001
         ctx.case(nontrivial=[inp, "exc"] if nontrivial else None, classes=["generator-exception"])
-        sig = f"generator-exception:{type(exc).__name__}"
-        if isinstance(exc, TypeError) and "unhashable" in str(exc) and "type-array" in feats:
-            sig = "generator-exception:TypeError-unhashable-type-array"
-        ctx.disagree(sig, f"cover_schema_iter raised {exc!r}"[:300], input=inp)
+        ctx.disagree(_exception_signature(exc, feats), f"cover_schema_iter raised {exc!r}"[:300], input=inp)
         return
     exempt = examples_of(doc_schema, root)
     for v in values:
@@ -270,6 +267,17 @@ def check_values(ctx: Ctx, inp) -> None:
                 kws = set(c01.violated_keywords(doc_schema, v.value, dialect=dialect, root=root))
                 if not (kws & named) and not (kws & {"anyOf", "oneOf", "allOf"}):
                     ctx.classes["description-names-another-keyword"] += 1
+
+
+def _exception_signature(exc, feats) -> str:
+    text = str(exc)
+    if isinstance(exc, TypeError) and "unhashable" in text and "type-array" in feats:
+        return "generator-exception:TypeError-unhashable-type-array"
+    if type(exc).__name__ == "InternalError" and "resulted in an invalid regex" in text:
+        return "generator-exception:InternalError:regex-quantifier-merging-produced-invalid-regex"
+    if type(exc).__name__ == "InvalidArgument" and "unique elements with values drawn from only" in text:
+        return "generator-exception:InvalidArgument:unique-array-larger-than-the-items-value-space"
+    return f"generator-exception:{type(exc).__name__}"
 
 
 def _same(a, b) -> bool:
@@ -317,10 +325,7 @@ def check_cases(ctx: Ctx, inp) -> None:
     except Exception as exc:  # noqa: BLE001
         ctx.case(classes=["case-generation-exception"])
         feats = features(doc_schema, root)
-        sig = f"case-generation-exception:{type(exc).__name__}"
-        if isinstance(exc, TypeError) and "unhashable" in str(exc) and "type-array" in feats:
-            sig = "generator-exception:TypeError-unhashable-type-array"
-        ctx.disagree(sig, f"_iter_coverage_cases raised {exc!r}"[:300], input=inp)
+        ctx.disagree(_exception_signature(exc, feats), f"_iter_coverage_cases raised {exc!r}"[:300], input=inp)
         return
     nontrivial = c01.has_keyword(doc_schema)
     exempt = examples_of(doc_schema, root)
